@@ -5,33 +5,108 @@ package main
 // regenerated definition equals the hand-written model the property theorems are about, so for these
 // functions the tie between model and code is the translator itself (for every input), not sampling.
 //
-// Fragment: functions over generic numbers / comparable values (-> Int), bool, slices (-> List) and
-// function parameters; statements `var x T`, `x := e`, `x = e`, `x += e`, `return e`, `if` (with the shapes
-// listed at trIf), `for k, v := range s`, the canonical `for i := 0; i < len(s); i++` reading only `s[i]`,
-// `res = append(res, e)`; `s[0]` only under a `len(s) > 0` / after a `len(s) == 0 { return }` guard.
-// Anything else makes the function "unsupported" (reported, and its tie theorem then fails to build).
+// THE FRAGMENT AND ITS ASSUMED SEMANTICS (this text is part of the trusted base).
+//
+// Types.  Go integer types and type parameters -> `Int` (unbounded: wrap-around is NOT modelled; conversions
+// between integer types `T(e)` are the identity); `bool` -> `Bool`; `string` and type parameters whose
+// constraint is `~string` -> `List UInt8` (the bytes); `[]T` -> `List T` (values only: no aliasing, no spare
+// capacity); `[2][]T` -> a pair of lists; `map[K]V` -> `List (K × V)`, an association list without duplicate
+// keys in insertion order, only ever used through `mapHas` / `mapGet` / `mapSet` (never iterated: `range` over a map is
+// OUTSIDE the fragment because Go's order is arbitrary); `func` parameters -> pure Lean functions (a callback
+// has no side effects and does not panic); `strings.Builder` -> the list of bytes written so far.
+//
+// Two modes.  A function is first translated in PURE mode (result type = the Lean type of the Go result).
+// If it contains a construct that can panic or return an error it is translated again in RES mode: the
+// result type is `Res T = Except Exc T` with `Exc.panic` (a Go run-time panic or a call of `panic`) and
+// `Exc.err` (a non-nil `error` result).  Partial operations, each bound in evaluation order before the
+// statement that contains it (callbacks being pure, only WHETHER one of them fails is observable):
+//   s[e]                 `goIdx s e`        fails unless 0 ≤ e < len(s)
+//   s[a:b], s[a:], s[:b] `goSlice s a b`    fails unless 0 ≤ a ≤ b ≤ len(s)   (for a slice Go checks b against
+//                                           cap(s); spare capacity is not modelled, as in the hand-written models)
+//   s[i] = e             `goSet s i e`      fails unless 0 ≤ i < len(s)
+//   a / b, a % b         `goDiv`, `goMod`   truncated division; fails when b = 0 (a non-zero literal divisor: pure)
+//   make([]T, n, c)      `goMake n c zero`  fails unless 0 ≤ n ≤ c  (pure `[]` / `List.replicate` when n is the literal 0
+//                                           or `len(e)` and c is absent, `len(e)` or, for n = 0, an integer literal)
+//   strings.Repeat(s, n) `goRepeat s n`     fails when n < 0 (overflow of the result length is not modelled)
+//   F(args)              call of another translated function that itself is in RES mode
+//   panic(e)             `Except.error Exc.panic` (the argument is not evaluated: it must be free of calls that matter)
+// A partial operation in the right operand of `&&` / `||` is outside the fragment.
+// Results `(T, error)`: `return e, nil` is `ok e`; `return e, <anything else>` is `Exc.err` (the value
+// returned next to a non-nil error and the error's text are not modelled).
+//
+// Statements: `var x T`, `x := e`, `x = e`, `x += e`, `x -= e`, `x++`, `x--`, `return`, `if` (with the shapes listed
+// at trIf, optionally with an init statement whose names are unique in the function), `res = append(res, e…)`
+// (snoc), `append(a, b...)` (concatenation), `m[k] = v` on a map (`mapSet`), `_, ok := m[k]` (`mapHas`), `m[k]` as a
+// value (`mapGet`: the zero value when absent),
+// `sb.WriteString(e)` on a strings.Builder, calls of other root-package functions of the fragment (generic
+// callees are re-translated for the Lean types of their type arguments), composite literals of slices.
+// Loops, all as structural recursion (so every translated loop terminates by construction):
+//   `for k, v := range s`                          recursion over the list s (evaluated once, as in Go)
+//   `for i := 0; i < len(s); i++`                  the same, with `s[i]` = the head; s and i not assigned in the body
+//   `for i := E; i >= 0; i--`                      recursion over the counter `(E+1).toNat`; i not assigned in the body
+//   `for i, j := E, F; i >= 0; i, j = i-1, G`      the same with one auxiliary variable j updated after each iteration
+//   `for i := A; i < B; i++`                       recursion over `(B-A).toNat`; i and the variables of B not assigned
+//                                                  in the body, B free of partial operations
+// `return` inside a loop makes the loop function return `Sum.inl value`; running to the end is `Sum.inr state`.
+// In a loop with `break` or `continue L` (L = the directly enclosing labelled loop) the jump is `Sum.inl state`
+// and running to the end is `Sum.inr state`; after a `break` both go on with what follows the loop, after a
+// `continue L` the jump goes on with the next iteration of L.  A loop with both a `return` and such a jump is
+// outside the fragment.  Plain `continue` is the recursive call (after the auxiliary variable's update).
+// An `if` that leaves (return / panic / break / continue) on some paths only: the statements that follow it are
+// translated once per branch (names declared in the branches must be unique in the function, so nothing is captured).
+// Inside a RES-mode function a loop or an `if` without partial operations keeps its PURE form.
+// Go identifiers ending in `_` are refused (such names are generated: `rest_`, `t1_`, `st_`, …).  `s[0]` without a bounds check only under a `len(s) > 0` / after a `len(s) == 0 { return }` guard.
+// Structs with n ≥ 2 fields -> the product of the field types (composite literal = tuple, `x.f` = projection); a
+// method with a value receiver -> a function whose first parameter is the receiver (`Recv_Method`).
+// A callback WITHOUT result (`fn func(T)`) is an effect: it becomes a state transformer `T → σ_ → σ_` for an
+// arbitrary type σ_, the function takes the initial state as an extra last parameter `st_`, every call statement
+// `fn(e)` is `st_ := fn e st_`, and a function without results returns the final state.  (So the ORDER of the
+// calls is part of the translated meaning.)  Calls of such a function from another function are outside the fragment.
+// Library calls with assumed semantics: `len`, `strings.HasPrefix(s, p)` = `p.isPrefixOf s`,
+// `strings.HasSuffix(s, p)` = `p.isSuffixOf s`, `strings.Repeat`, `(*strings.Builder).WriteString/String`.
+// Anything else makes the function "unsupported" (reported in facts.json: regeneratedFunctions; its tie theorem
+// then fails to build).  There is no per-function special case anywhere in this translator.
 
 import (
 	"fmt"
 	"go/ast"
-	"go/token"
 	"go/types"
 	"sort"
 	"strings"
 )
 
+type binding struct{ name, term string }
+
+// loopFrame describes the innermost enclosing translated loop.
+type loopFrame struct {
+	label    string
+	state    []string
+	hasRet   bool          // the loop result is  ρ ⊕ S
+	hasJump  bool          // the loop result is  S ⊕ S  (inl = left through break / continue Outer)
+	cont     func() string // the recursive call (plain continue / end of body)
+	jumpKind string        // "break" or "continue:<label>" once one was seen
+}
+
 type fragCtx struct {
-	f         *fn
-	name      string
-	aux       []string // auxiliary loop definitions
-	nloops    int
-	params    []string             // lean names of the parameters, in order
-	ptypes    []string             // lean types of the parameters
-	ret       string               // lean return type
-	heads     map[string]string    // slice var -> lean name of its known head element (guarded s[0])
-	loopVar   map[string][2]string // index var -> (slice, element name) inside a canonical indexed loop
-	inLoopRet string               // non-empty inside a loop body with returns: constructor wrapping a returned value
-	err       string
+	f       *fn
+	name    string   // Lean name of the definition
+	aux     []string // auxiliary loop definitions
+	nloops  int
+	params  []string // lean names of the parameters, in order
+	ptypes  []string // lean types of the parameters
+	ret     string   // lean type of the (first) result
+	retErr  bool     // results are (T, error)
+	heads   map[string]string
+	loopVar map[string][2]string
+	frames  []*loopFrame
+	res     bool // RES mode
+	needRes bool // the PURE attempt met a partial construct
+	pre     []binding
+	ntmp    int
+	tsubst  map[*types.TypeParam]types.Type // type arguments of this instance
+	effect  bool                            // a callback without result is a state transformer σ_ → σ_; the function threads `st_`
+	noRes   bool                            // the Go function has no result: the Lean result is the final state `st_`
+	err     string
 }
 
 var leanReserved = map[string]bool{"end": true, "fun": true, "at": true, "from": true, "in": true, "then": true,
@@ -53,9 +128,70 @@ func (c *fragCtx) fail(format string, a ...any) string {
 	return "sorryUnsupported"
 }
 
+// partial registers a partial operation; the result is the name of the temporary holding its value.
+func (c *fragCtx) partial(term string) string {
+	if !c.res {
+		c.needRes = true
+		return c.fail("partial operation in PURE mode")
+	}
+	c.ntmp++
+	n := fmt.Sprintf("t%d_", c.ntmp)
+	c.pre = append(c.pre, binding{n, term})
+	return n
+}
+
+func (c *fragCtx) takePre() []binding {
+	p := c.pre
+	c.pre = nil
+	return p
+}
+
+// withPre binds the partial operations collected for a statement in front of its translation.
+func (c *fragCtx) withPre(pre []binding, body string) string {
+	for i := len(pre) - 1; i >= 0; i-- {
+		body = "(match " + pre[i].term + " with\n| Except.error e_ => Except.error e_\n| Except.ok " + pre[i].name + " =>\n" + body + ")"
+	}
+	return body
+}
+
+const strT = "(List UInt8)"
+
+// coreIsString: a type parameter whose constraint is a union of ~string terms only.
+func coreIsString(tp *types.TypeParam) bool {
+	iface, ok := tp.Constraint().Underlying().(*types.Interface)
+	if !ok || iface.NumEmbeddeds() == 0 {
+		return false
+	}
+	for i := 0; i < iface.NumEmbeddeds(); i++ {
+		et := iface.EmbeddedType(i)
+		u, ok := et.(*types.Union)
+		if !ok {
+			return false
+		}
+		for j := 0; j < u.Len(); j++ {
+			b, ok := u.Term(j).Type().Underlying().(*types.Basic)
+			if !ok || b.Info()&types.IsString == 0 {
+				return false
+			}
+		}
+	}
+	return true
+}
+
 func (c *fragCtx) leanType(t types.Type) string {
+	if fz, ok := t.(frozen); ok {
+		return fz.lean
+	}
 	switch x := t.(type) {
 	case *types.TypeParam:
+		if c.tsubst != nil {
+			if a, ok := c.tsubst[x]; ok {
+				return c.leanTypeNoSubst(a)
+			}
+		}
+		if coreIsString(x) {
+			return strT
+		}
 		return "Int"
 	case *types.Basic:
 		switch {
@@ -63,9 +199,13 @@ func (c *fragCtx) leanType(t types.Type) string {
 			return "Bool"
 		case x.Info()&types.IsInteger != 0:
 			return "Int"
+		case x.Info()&types.IsString != 0:
+			return strT
 		}
 	case *types.Slice:
 		return "(List " + c.leanType(x.Elem()) + ")"
+	case *types.Map:
+		return "(List (" + c.leanType(x.Key()) + " × " + c.leanType(x.Elem()) + "))"
 	case *types.Array:
 		if x.Len() == 2 {
 			e := c.leanType(x.Elem())
@@ -76,212 +216,88 @@ func (c *fragCtx) leanType(t types.Type) string {
 		for i := 0; i < x.Params().Len(); i++ {
 			parts = append(parts, c.leanType(x.Params().At(i).Type()))
 		}
-		if x.Results().Len() != 1 {
+		switch x.Results().Len() {
+		case 0: // an effect on the caller's state
+			parts = append(parts, "σ_", "σ_")
+		case 1:
+			parts = append(parts, c.leanType(x.Results().At(0).Type()))
+		default:
 			return c.fail("callback with %d results", x.Results().Len())
 		}
-		parts = append(parts, c.leanType(x.Results().At(0).Type()))
 		return "(" + strings.Join(parts, " → ") + ")"
 	case *types.Named:
+		if isBuilder(x) {
+			return strT
+		}
 		return c.leanType(x.Underlying())
+	case *types.Struct:
+		if x.NumFields() < 2 {
+			return c.fail("struct with fewer than two fields")
+		}
+		parts := make([]string, x.NumFields())
+		for i := range parts {
+			parts[i] = c.leanType(x.Field(i).Type())
+		}
+		return "(" + strings.Join(parts, " × ") + ")"
 	case *types.Alias:
 		return c.leanType(types.Unalias(x))
 	}
 	return c.fail("unsupported type %s", t)
 }
 
+// leanTypeNoSubst translates a type argument (which lives in the CALLER's context: its own type parameters
+// take their default translation).
+func (c *fragCtx) leanTypeNoSubst(t types.Type) string {
+	saved := c.tsubst
+	c.tsubst = nil
+	out := c.leanType(t)
+	c.tsubst = saved
+	return out
+}
+
+func isBuilder(t types.Type) bool {
+	n, ok := t.(*types.Named)
+	return ok && n.Obj().Pkg() != nil && n.Obj().Pkg().Path() == "strings" && n.Obj().Name() == "Builder"
+}
+
 func (c *fragCtx) zero(t types.Type) string {
-	switch c.leanType(t) {
+	lt := c.leanType(t)
+	switch lt {
 	case "Int":
 		return "(0 : Int)"
 	case "Bool":
 		return "false"
 	}
-	if strings.HasPrefix(c.leanType(t), "(List") {
-		return "([] : " + c.leanType(t) + ")"
+	if strings.HasPrefix(lt, "(List") {
+		return "([] : " + lt + ")"
 	}
-	if strings.Contains(c.leanType(t), "×") {
-		return "(([], []) : " + c.leanType(t) + ")"
+	if st, ok := t.Underlying().(*types.Struct); ok {
+		parts := make([]string, st.NumFields())
+		for i := range parts {
+			parts[i] = c.zero(st.Field(i).Type())
+		}
+		return "((" + strings.Join(parts, ", ") + ") : " + lt + ")"
+	}
+	if strings.Contains(lt, "×") {
+		return "(([], []) : " + lt + ")"
 	}
 	return c.fail("zero value of %s", t)
 }
 
 func (c *fragCtx) typeOf(e ast.Expr) types.Type { return c.f.pkg.TypesInfo.TypeOf(e) }
 
-func (c *fragCtx) isIntLike(e ast.Expr) bool {
+func (c *fragCtx) leanTypeOf(e ast.Expr) string {
 	t := c.typeOf(e)
 	if t == nil {
-		return false
+		return ""
 	}
-	return c.leanType(t) == "Int"
+	saved := c.err
+	out := c.leanType(t)
+	c.err = saved // a query, not a use
+	return out
 }
 
-// expr translates an expression.
-func (c *fragCtx) expr(e ast.Expr) string {
-	switch x := e.(type) {
-	case *ast.ParenExpr:
-		return c.expr(x.X)
-	case *ast.Ident:
-		switch x.Name {
-		case "true", "false":
-			return x.Name
-		}
-		return lv(x.Name)
-	case *ast.BasicLit:
-		if x.Kind == token.INT {
-			return "(" + x.Value + " : Int)"
-		}
-		return c.fail("literal %s", x.Value)
-	case *ast.UnaryExpr:
-		switch x.Op {
-		case token.SUB:
-			return "(-" + c.expr(x.X) + ")"
-		case token.NOT:
-			return "(!" + c.expr(x.X) + ")"
-		}
-		return c.fail("unary %s", x.Op)
-	case *ast.BinaryExpr:
-		a, b := c.expr(x.X), c.expr(x.Y)
-		switch x.Op {
-		case token.ADD:
-			return "(" + a + " + " + b + ")"
-		case token.SUB:
-			return "(" + a + " - " + b + ")"
-		case token.MUL:
-			return "(" + a + " * " + b + ")"
-		case token.LSS:
-			return "decide (" + a + " < " + b + ")"
-		case token.LEQ:
-			return "decide (" + a + " ≤ " + b + ")"
-		case token.GTR:
-			return "decide (" + a + " > " + b + ")"
-		case token.GEQ:
-			return "decide (" + a + " ≥ " + b + ")"
-		case token.EQL:
-			if c.isIntLike(x.X) {
-				return "decide (" + a + " = " + b + ")"
-			}
-			return "(" + a + " == " + b + ")"
-		case token.NEQ:
-			if c.isIntLike(x.X) {
-				return "decide (" + a + " ≠ " + b + ")"
-			}
-			return "(" + a + " != " + b + ")"
-		case token.LAND:
-			return "(" + a + " && " + b + ")"
-		case token.LOR:
-			return "(" + a + " || " + b + ")"
-		}
-		return c.fail("binary %s", x.Op)
-	case *ast.CallExpr:
-		if id, ok := x.Fun.(*ast.Ident); ok {
-			if id.Name == "len" && len(x.Args) == 1 {
-				return "(" + c.expr(x.Args[0]) + ".length : Int)"
-			}
-			// a call of a function-typed parameter
-			if obj := c.f.pkg.TypesInfo.Uses[id]; obj != nil {
-				if _, isVar := obj.(*types.Var); isVar {
-					parts := []string{lv(id.Name)}
-					for _, a := range x.Args {
-						parts = append(parts, c.expr(a))
-					}
-					return "(" + strings.Join(parts, " ") + ")"
-				}
-			}
-			return c.fail("call of %s", id.Name)
-		}
-		return c.fail("call")
-	case *ast.IndexExpr:
-		// s[i] inside the canonical indexed loop, or s[0] under a length guard
-		if sid, ok := x.X.(*ast.Ident); ok {
-			if iid, ok := x.Index.(*ast.Ident); ok {
-				if lvv, ok := c.loopVar[iid.Name]; ok && lvv[0] == sid.Name {
-					return lvv[1]
-				}
-			}
-			if lit, ok := x.Index.(*ast.BasicLit); ok && lit.Value == "0" {
-				if h, ok := c.heads[sid.Name]; ok {
-					return h
-				}
-			}
-		}
-		return c.fail("index expression (unguarded)")
-	}
-	return c.fail("expression %T", e)
-}
-
-// assigned collects the variables (declared outside) assigned in stmts; hasRet reports a return inside.
-func assignedIn(stmts []ast.Stmt) (vars []string, hasRet bool) {
-	seen := map[string]bool{}
-	declared := map[string]bool{}
-	var walk func(n ast.Node) bool
-	walk = func(n ast.Node) bool {
-		switch x := n.(type) {
-		case *ast.ReturnStmt:
-			hasRet = true
-		case *ast.AssignStmt:
-			for _, l := range x.Lhs {
-				if id, ok := l.(*ast.Ident); ok && id.Name != "_" {
-					if x.Tok == token.DEFINE {
-						declared[id.Name] = true
-					} else if !declared[id.Name] && !seen[id.Name] {
-						seen[id.Name] = true
-						vars = append(vars, id.Name)
-					}
-				}
-				if ie, ok := l.(*ast.IndexExpr); ok { // result[0] = append(result[0], v)
-					if id, ok := ie.X.(*ast.Ident); ok && !declared[id.Name] && !seen[id.Name] {
-						seen[id.Name] = true
-						vars = append(vars, id.Name)
-					}
-				}
-			}
-		case *ast.IncDecStmt:
-			if id, ok := x.X.(*ast.Ident); ok && !declared[id.Name] && !seen[id.Name] {
-				seen[id.Name] = true
-				vars = append(vars, id.Name)
-			}
-		case *ast.DeclStmt:
-			if gd, ok := x.Decl.(*ast.GenDecl); ok {
-				for _, sp := range gd.Specs {
-					if vs, ok := sp.(*ast.ValueSpec); ok {
-						for _, n := range vs.Names {
-							declared[n.Name] = true
-						}
-					}
-				}
-			}
-		}
-		return true
-	}
-	for _, s := range stmts {
-		ast.Inspect(s, walk)
-	}
-	sort.Strings(vars)
-	return
-}
-
-func alwaysReturns(stmts []ast.Stmt) bool {
-	if len(stmts) == 0 {
-		return false
-	}
-	switch x := stmts[len(stmts)-1].(type) {
-	case *ast.ReturnStmt:
-		return true
-	case *ast.IfStmt:
-		if x.Else == nil {
-			return false
-		}
-		var els []ast.Stmt
-		switch e := x.Else.(type) {
-		case *ast.BlockStmt:
-			els = e.List
-		case *ast.IfStmt:
-			els = []ast.Stmt{e}
-		}
-		return alwaysReturns(x.Body.List) && alwaysReturns(els)
-	}
-	return false
-}
+func (c *fragCtx) isIntLike(e ast.Expr) bool { return c.leanTypeOf(e) == "Int" }
 
 func tuple(vars []string) string {
 	if len(vars) == 0 {
@@ -297,421 +313,11 @@ func tuple(vars []string) string {
 	return "(" + strings.Join(parts, ", ") + ")"
 }
 
-// lenGuard recognises `len(s) > 0` (kind 1) and `len(s) == 0` (kind 2).
-func lenGuard(cond ast.Expr) (slice string, kind int) {
-	be, ok := cond.(*ast.BinaryExpr)
-	if !ok {
-		return "", 0
-	}
-	call, ok := be.X.(*ast.CallExpr)
-	if !ok {
-		return "", 0
-	}
-	id, ok := call.Fun.(*ast.Ident)
-	if !ok || id.Name != "len" || len(call.Args) != 1 {
-		return "", 0
-	}
-	sid, ok := call.Args[0].(*ast.Ident)
-	lit, ok2 := be.Y.(*ast.BasicLit)
-	if !ok || !ok2 || lit.Value != "0" {
-		return "", 0
-	}
-	switch be.Op {
-	case token.GTR:
-		return sid.Name, 1
-	case token.EQL:
-		return sid.Name, 2
-	}
-	return "", 0
-}
-
-// stmts translates a statement list; k yields the Lean term for "what follows" (nil: nothing may follow).
-func (c *fragCtx) stmts(list []ast.Stmt, k func() string) string {
-	if len(list) == 0 {
-		if k == nil {
-			return c.fail("control reaches the end of the function without return")
-		}
-		return k()
-	}
-	rest := func() string { return c.stmts(list[1:], k) }
-	switch x := list[0].(type) {
-	case *ast.EmptyStmt:
-		return rest()
-	case *ast.ReturnStmt:
-		if len(x.Results) != 1 {
-			return c.fail("return with %d results", len(x.Results))
-		}
-		if c.inLoopRet != "" {
-			return "(" + c.inLoopRet + " " + c.expr(x.Results[0]) + ")"
-		}
-		return c.expr(x.Results[0])
-	case *ast.DeclStmt:
-		gd, ok := x.Decl.(*ast.GenDecl)
-		if !ok || gd.Tok != token.VAR {
-			return c.fail("declaration")
-		}
-		out := ""
-		for _, sp := range gd.Specs {
-			vs := sp.(*ast.ValueSpec)
-			for i, n := range vs.Names {
-				t := c.f.pkg.TypesInfo.Defs[n].Type()
-				val := c.zero(t)
-				if i < len(vs.Values) {
-					val = c.rhs(vs.Values[i], t)
-				}
-				out += "let " + lv(n.Name) + " : " + c.leanType(t) + " := " + val + "\n"
-			}
-		}
-		return out + rest()
-	case *ast.AssignStmt:
-		if len(x.Lhs) != 1 || len(x.Rhs) != 1 {
-			return c.fail("multiple assignment")
-		}
-		// result[i] = append(result[i], v) on a pair
-		if ie, ok := x.Lhs[0].(*ast.IndexExpr); ok {
-			id, ok1 := ie.X.(*ast.Ident)
-			lit, ok2 := ie.Index.(*ast.BasicLit)
-			app, isApp := c.appendOf(x.Rhs[0])
-			if ok1 && ok2 && isApp && (lit.Value == "0" || lit.Value == "1") {
-				n := lv(id.Name)
-				if lit.Value == "0" {
-					return "let " + n + " := (" + n + ".1 ++ [" + app + "], " + n + ".2)\n" + rest()
-				}
-				return "let " + n + " := (" + n + ".1, " + n + ".2 ++ [" + app + "])\n" + rest()
-			}
-			return c.fail("indexed assignment")
-		}
-		id, ok := x.Lhs[0].(*ast.Ident)
-		if !ok {
-			return c.fail("assignment target")
-		}
-		var val string
-		switch x.Tok {
-		case token.DEFINE, token.ASSIGN:
-			val = c.rhs(x.Rhs[0], c.typeOf(x.Lhs[0]))
-		case token.ADD_ASSIGN:
-			val = "(" + lv(id.Name) + " + " + c.expr(x.Rhs[0]) + ")"
-		case token.SUB_ASSIGN:
-			val = "(" + lv(id.Name) + " - " + c.expr(x.Rhs[0]) + ")"
-		default:
-			return c.fail("assignment operator %s", x.Tok)
-		}
-		return "let " + lv(id.Name) + " := " + val + "\n" + rest()
-	case *ast.IfStmt:
-		return c.trIf(x, list[1:], k)
-	case *ast.RangeStmt:
-		return c.trRange(x, list[1:], k)
-	case *ast.ForStmt:
-		return c.trFor(x, list[1:], k)
-	}
-	return c.fail("statement %T", list[0])
-}
-
-// appendOf recognises append(X, e) and returns the translation of e.
-func (c *fragCtx) appendOf(e ast.Expr) (string, bool) {
-	call, ok := e.(*ast.CallExpr)
-	if !ok {
-		return "", false
-	}
-	id, ok := call.Fun.(*ast.Ident)
-	if !ok || id.Name != "append" || len(call.Args) != 2 || call.Ellipsis != token.NoPos {
-		return "", false
-	}
-	return c.expr(call.Args[1]), true
-}
-
-// rhs translates the right-hand side of an assignment (append / make / composite zero values allowed).
-func (c *fragCtx) rhs(e ast.Expr, t types.Type) string {
-	if call, ok := e.(*ast.CallExpr); ok {
-		if id, ok := call.Fun.(*ast.Ident); ok {
-			switch id.Name {
-			case "append":
-				if v, ok := c.appendOf(e); ok {
-					return "(" + c.expr(call.Args[0]) + " ++ [" + v + "])"
-				}
-			case "make":
-				if len(call.Args) == 2 {
-					if lit, ok := call.Args[1].(*ast.BasicLit); ok && lit.Value == "0" {
-						return c.zero(t)
-					}
-				}
-				return c.fail("make with a length")
-			}
-		}
-	}
-	if cl, ok := e.(*ast.CompositeLit); ok && len(cl.Elts) == 0 {
-		return c.zero(t)
-	}
-	return c.expr(e)
-}
-
-// trIf: shapes  (a) then-branch always returns, no else:  if c then A else REST
-//
-//	(b) both branches always return:          if c then A else B
-//	(c) no return inside:                      let vars := if c then (A; vars) else (B; vars); REST
-//	plus the two length guards that give s[0] a name.
-func (c *fragCtx) trIf(x *ast.IfStmt, after []ast.Stmt, k func() string) string {
-	if x.Init != nil {
-		return c.fail("if with init")
-	}
-	var els []ast.Stmt
-	switch e := x.Else.(type) {
-	case *ast.BlockStmt:
-		els = e.List
-	case *ast.IfStmt:
-		els = []ast.Stmt{e}
-	}
-	rest := func() string { return c.stmts(after, k) }
-	if s, kind := lenGuard(x.Cond); kind != 0 && x.Else == nil {
-		h := lv(s) + "_head"
-		withHead := func(f func() string) string {
-			old, had := c.heads[s]
-			c.heads[s] = h
-			out := f()
-			if had {
-				c.heads[s] = old
-			} else {
-				delete(c.heads, s)
-			}
-			return out
-		}
-		if kind == 1 { // if len(s) > 0 { A }  (A without return)
-			vars, hasRet := assignedIn(x.Body.List)
-			if hasRet {
-				return c.fail("return under len guard")
-			}
-			body := withHead(func() string { return c.stmts(x.Body.List, func() string { return tuple(vars) }) })
-			return "let " + tuple(vars) + " := (match " + lv(s) + " with\n| [] => " + tuple(vars) + "\n| " + h + " :: _ => (" + body + "))\n" + rest()
-		}
-		if kind == 2 && alwaysReturns(x.Body.List) { // if len(s) == 0 { return … }; REST may use s[0]
-			thenB := c.stmts(x.Body.List, nil)
-			restH := withHead(rest)
-			return "(match " + lv(s) + " with\n| [] => " + thenB + "\n| " + h + " :: _ => (" + restH + "))"
-		}
-	}
-	cond := c.expr(x.Cond)
-	thenRet, elsRet := alwaysReturns(x.Body.List), alwaysReturns(els)
-	_, thenHas := assignedIn(x.Body.List)
-	_, elsHas := assignedIn(els)
-	switch {
-	case thenRet:
-		// the else branch (possibly empty) falls through to what follows
-		return "if " + cond + " then (" + c.stmts(x.Body.List, nil) + ") else (" +
-			c.stmts(append(append([]ast.Stmt{}, els...), after...), k) + ")"
-	case elsRet:
-		return "if " + cond + " then (" + c.stmts(append(append([]ast.Stmt{}, x.Body.List...), after...), k) +
-			") else (" + c.stmts(els, nil) + ")"
-	case !thenHas && !elsHas:
-		vars, _ := assignedIn(append(append([]ast.Stmt{}, x.Body.List...), els...))
-		k2 := func() string { return tuple(vars) }
-		return "let " + tuple(vars) + " := (if " + cond + " then (" + c.stmts(x.Body.List, k2) + ") else (" + c.stmts(els, k2) + "))\n" + rest()
-	}
-	return c.fail("if with a return on some paths only")
-}
-
-// loop emits the auxiliary definition of a loop over a list and returns the call site term.
-func (c *fragCtx) loop(slice string, elemType types.Type, keyName, valName string, body []ast.Stmt, after []ast.Stmt, k func() string) string {
-	c.nloops++
-	aux := fmt.Sprintf("%s.loop%d", c.name, c.nloops)
-	vars, hasRet := assignedIn(body)
-	// loop-local names must not be treated as state
-	var state []string
-	for _, v := range vars {
-		if v != keyName && v != valName {
-			state = append(state, v)
-		}
-	}
-	et := c.leanType(elemType)
-	// state types
-	stTypes := make([]string, len(state))
-	for i, v := range state {
-		stTypes[i] = c.varType(v, body)
-	}
-	stT := "Unit"
-	if len(state) == 1 {
-		stT = stTypes[0]
-	} else if len(state) > 1 {
-		stT = "(" + strings.Join(stTypes, " × ") + ")"
-	}
-	resT := stT
-	if hasRet {
-		resT = "(" + c.ret + " ⊕ " + stT + ")"
-	}
-	if keyName == "" || keyName == "_" {
-		keyName = "k_"
-	}
-	if valName == "" || valName == "_" {
-		valName = "v_"
-	}
-	// captured variables: the function's parameters (simple and sufficient for this fragment)
-	var capDecl, capUse []string
-	for i, p := range c.params {
-		capDecl = append(capDecl, "("+p+" : "+c.ptypes[i]+")")
-		capUse = append(capUse, p)
-	}
-	// extra captured locals: variables read in the body, declared before the loop, not state, not params
-	extra := c.freeLocals(body, state, keyName, valName)
-	for _, e := range extra {
-		capDecl = append(capDecl, "("+lv(e.name)+" : "+e.typ+")")
-		capUse = append(capUse, lv(e.name))
-	}
-	oldRet := c.inLoopRet
-	if hasRet {
-		c.inLoopRet = "Sum.inl"
-	}
-	cont := func() string {
-		call := aux + " " + strings.Join(capUse, " ") + " rest_ (" + lv(keyName) + " + 1) " + tuple(state)
-		return "(" + call + ")"
-	}
-	bodyT := c.stmts(body, cont)
-	c.inLoopRet = oldRet
-	done := tuple(state)
-	if hasRet {
-		done = "(Sum.inr " + tuple(state) + ")"
-	}
-	def := fmt.Sprintf("def %s %s : List %s → Int → %s → %s\n  | [], _, %s => %s\n  | %s :: rest_, %s, %s =>\n%s\n",
-		aux, strings.Join(capDecl, " "), et, stT, resT, tupleOrUnder(state), done, lv(valName), lv(keyName), tuple(state), indent(bodyT, 4))
-	c.aux = append(c.aux, def)
-	call := "(" + aux + " " + strings.Join(capUse, " ") + " " + lv(slice) + " 0 " + tuple(state) + ")"
-	restT := func() string { return c.stmts(after, k) }
-	if hasRet {
-		return "(match " + call + " with\n| Sum.inl r_ => r_\n| Sum.inr " + tupleOrUnder(state) + " => (" + restT() + "))"
-	}
-	if len(state) == 0 {
-		return "let _ := " + call + "\n" + restT()
-	}
-	return "let " + tuple(state) + " := " + call + "\n" + restT()
-}
-
 func tupleOrUnder(vars []string) string {
 	if len(vars) == 0 {
 		return "_"
 	}
 	return tuple(vars)
-}
-
-type localVar struct{ name, typ string }
-
-// freeLocals: identifiers read in body that are local variables of the function declared outside the body.
-func (c *fragCtx) freeLocals(body []ast.Stmt, state []string, keyName, valName string) []localVar {
-	skip := map[string]bool{keyName: true, valName: true}
-	for _, s := range state {
-		skip[s] = true
-	}
-	for _, p := range c.params {
-		skip[p] = true
-	}
-	seen := map[string]bool{}
-	var out []localVar
-	inner := map[types.Object]bool{}
-	for _, s := range body {
-		ast.Inspect(s, func(n ast.Node) bool {
-			if id, ok := n.(*ast.Ident); ok {
-				if obj := c.f.pkg.TypesInfo.Defs[id]; obj != nil {
-					inner[obj] = true
-				}
-			}
-			return true
-		})
-	}
-	for _, s := range body {
-		ast.Inspect(s, func(n ast.Node) bool {
-			id, ok := n.(*ast.Ident)
-			if !ok || skip[lv(id.Name)] || skip[id.Name] || seen[id.Name] {
-				return true
-			}
-			obj := c.f.pkg.TypesInfo.Uses[id]
-			v, isVar := obj.(*types.Var)
-			if !isVar || inner[obj] || v.Parent() == nil || v.Pkg() == nil || v.Parent() == v.Pkg().Scope() {
-				return true
-			}
-			seen[id.Name] = true
-			out = append(out, localVar{id.Name, c.leanType(v.Type())})
-			return true
-		})
-	}
-	return out
-}
-
-func (c *fragCtx) varType(name string, scope []ast.Stmt) string {
-	var t types.Type
-	for _, s := range scope {
-		ast.Inspect(s, func(n ast.Node) bool {
-			if id, ok := n.(*ast.Ident); ok && id.Name == name && t == nil {
-				if obj := c.f.pkg.TypesInfo.Uses[id]; obj != nil {
-					t = obj.Type()
-				}
-			}
-			return true
-		})
-	}
-	if t == nil {
-		return c.fail("type of %s", name)
-	}
-	return c.leanType(t)
-}
-
-func (c *fragCtx) trRange(x *ast.RangeStmt, after []ast.Stmt, k func() string) string {
-	sid, ok := x.X.(*ast.Ident)
-	if !ok {
-		return c.fail("range over an expression")
-	}
-	sl, ok := c.typeOf(x.X).Underlying().(*types.Slice)
-	if !ok {
-		return c.fail("range over a non-slice")
-	}
-	name := func(e ast.Expr) string {
-		if e == nil {
-			return "_"
-		}
-		if id, ok := e.(*ast.Ident); ok {
-			return id.Name
-		}
-		return "_"
-	}
-	return c.loop(sid.Name, sl.Elem(), name(x.Key), name(x.Value), x.Body.List, after, k)
-}
-
-// trFor: only `for i := 0; i < len(s); i++ { … s[i] … }`.
-func (c *fragCtx) trFor(x *ast.ForStmt, after []ast.Stmt, k func() string) string {
-	init, ok1 := x.Init.(*ast.AssignStmt)
-	cond, ok2 := x.Cond.(*ast.BinaryExpr)
-	post, ok3 := x.Post.(*ast.IncDecStmt)
-	if !ok1 || !ok2 || !ok3 || len(init.Lhs) != 1 || cond.Op != token.LSS || post.Tok != token.INC {
-		return c.fail("for loop shape")
-	}
-	iv, ok := init.Lhs[0].(*ast.Ident)
-	lit, okl := init.Rhs[0].(*ast.BasicLit)
-	if !ok || !okl || lit.Value != "0" {
-		return c.fail("for loop init")
-	}
-	call, ok := cond.Y.(*ast.CallExpr)
-	ci, okc := cond.X.(*ast.Ident)
-	if !ok || !okc || ci.Name != iv.Name || len(call.Args) != 1 {
-		return c.fail("for loop condition")
-	}
-	if fid, ok := call.Fun.(*ast.Ident); !ok || fid.Name != "len" {
-		return c.fail("for loop bound")
-	}
-	sid, ok := call.Args[0].(*ast.Ident)
-	if !ok {
-		return c.fail("for loop bound")
-	}
-	sl, ok := c.typeOf(call.Args[0]).Underlying().(*types.Slice)
-	if !ok {
-		return c.fail("for loop over a non-slice")
-	}
-	vars, _ := assignedIn(x.Body.List)
-	for _, v := range vars {
-		if v == iv.Name || v == sid.Name {
-			return c.fail("loop variable or slice assigned in the loop")
-		}
-	}
-	elem := lv(sid.Name) + "_i"
-	c.loopVar[iv.Name] = [2]string{sid.Name, elem}
-	out := c.loop(sid.Name, sl.Elem(), iv.Name, elem, x.Body.List, after, k)
-	delete(c.loopVar, iv.Name)
-	return out
 }
 
 func indent(s string, n int) string {
@@ -723,9 +329,278 @@ func indent(s string, n int) string {
 	return strings.Join(lines, "\n")
 }
 
+// ok wraps a value that ends the current computation normally.
+func (c *fragCtx) ok(t string) string {
+	if c.res {
+		return "(Except.ok " + t + ")"
+	}
+	return t
+}
+
+// bindTerm: `pat` := term (a value in PURE mode, a `Res` in RES mode); then body.
+func (c *fragCtx) bindTerm(term, pat, body string) string {
+	if c.res {
+		return "(match " + term + " with\n| Except.error e_ => Except.error e_\n| Except.ok " + pat + " =>\n" + body + ")"
+	}
+	return "let " + pat + " := " + term + "\n" + body
+}
+
 // fragFunctions lists the helpers that are regenerated (root package).
 var fragFunctions = []string{"Sum", "SumBy", "IndexOf", "Contains", "Every", "Some", "FindIndex", "Filter", "Partition",
-	"FindMin", "FindMax", "FindMinBy", "FindMaxBy", "Min", "Max", "Abs", "Clamp", "InRange", "Compare", "Equal", "Less"}
+	"FindMin", "FindMax", "FindMinBy", "FindMaxBy", "Min", "Max", "Abs", "Clamp", "InRange", "Compare", "Equal", "Less",
+	// second batch
+	"Mean", "LastIndexOf", "FindLastIndex", "Reduce", "Map", "Drop", "DropWhile", "DropRightWhile", "Merge", "Chunk",
+	"Nth", "FindAll",
+	"Unique", "UniqueBy", "Without", "Difference", "DifferenceBy", "Duplicate", "Intersection",
+	"Substr", "SplitAtIndex", "Wrap", "Unwrap", "PadLeft", "PadRight", "Pad",
+	"Reverse", "Reject", "Range", "ForEach", "ForEachRight", "Zip", "Unzip", "GroupBy"}
+
+type fragResult struct {
+	leanName string
+	status   string // "ok" or "unsupported: …"
+	res      bool
+	effect   bool
+	text     string
+}
+
+var fragByName map[string]*fn
+var fragDone map[string]*fragResult
+var fragBusy map[string]bool
+var fragOut *strings.Builder
+
+// instanceName: the Lean name of the instance of a generic function for given type arguments ("" = default).
+func (c *fragCtx) instanceSuffix(sig *types.Signature, targs []types.Type) (string, map[*types.TypeParam]types.Type) {
+	tps := sig.TypeParams()
+	if tps == nil || len(targs) == 0 {
+		return "", nil
+	}
+	sub := map[*types.TypeParam]types.Type{}
+	suffix := ""
+	special := false
+	for i := 0; i < tps.Len() && i < len(targs); i++ {
+		lt := c.leanType(targs[i])
+		def := "Int"
+		if coreIsString(tps.At(i)) {
+			def = strT
+		}
+		if lt != def {
+			special = true
+			sub[tps.At(i)] = targs[i]
+		}
+		switch lt {
+		case "Int":
+			suffix += "_Int"
+		case strT:
+			suffix += "_Str"
+		case "Bool":
+			suffix += "_Bool"
+		default:
+			suffix += "_X"
+			if lt != def {
+				c.fail("type argument %s", targs[i])
+			}
+		}
+	}
+	if !special {
+		return "", nil
+	}
+	// the substituted types are translated in the caller's context now: freeze them as Lean-type witnesses
+	return suffix, sub
+}
+
+// translateFunc translates the root-package function `goName` (memoised per instance) and emits it.
+func translateFunc(goName, suffix string, tsubst map[*types.TypeParam]types.Type, caller *fragCtx) *fragResult {
+	leanName := goName + suffix
+	if r, ok := fragDone[leanName]; ok {
+		return r
+	}
+	if fragBusy[leanName] {
+		return &fragResult{leanName: leanName, status: "unsupported: recursion"}
+	}
+	f := fragByName[goName]
+	if f == nil {
+		r := &fragResult{leanName: leanName, status: "missing from the source"}
+		fragDone[leanName] = r
+		fmt.Fprintf(fragOut, "-- %s: missing from the source\n\n", leanName)
+		return r
+	}
+	fragBusy[leanName] = true
+	defer delete(fragBusy, leanName)
+	var c *fragCtx
+	var body string
+	for _, mode := range []bool{false, true} {
+		c = &fragCtx{f: f, name: leanName, heads: map[string]string{}, loopVar: map[string][2]string{}, res: mode}
+		if tsubst != nil {
+			// freeze the type arguments as types of the caller's context
+			c.tsubst = map[*types.TypeParam]types.Type{}
+			for k, v := range tsubst {
+				c.tsubst[k] = frozen{v, caller.leanType(v)}
+			}
+		}
+		sig := f.obj.Type().(*types.Signature)
+		if r := sig.Recv(); r != nil { // a method with a value receiver: the receiver is the first parameter
+			if _, isPtr := r.Type().(*types.Pointer); isPtr || r.Name() == "" || r.Name() == "_" {
+				c.fail("pointer or unnamed receiver")
+			} else {
+				c.params = append(c.params, lv(r.Name()))
+				c.ptypes = append(c.ptypes, c.leanType(r.Type()))
+			}
+		}
+		for i := 0; i < sig.Params().Len(); i++ {
+			p := sig.Params().At(i)
+			if ps, ok := p.Type().Underlying().(*types.Signature); ok && ps.Results().Len() == 0 {
+				c.effect = true
+			}
+			c.params = append(c.params, lv(p.Name()))
+			c.ptypes = append(c.ptypes, c.leanType(p.Type()))
+		}
+		switch {
+		case sig.Results().Len() == 0 && c.effect:
+			c.ret = "σ_"
+			c.noRes = true
+		case c.effect:
+			c.fail("effectful callback in a function with results")
+		case sig.Results().Len() == 1:
+			c.ret = c.leanType(sig.Results().At(0).Type())
+		case sig.Results().Len() == 2 && sig.Results().At(1).Type().String() == "error":
+			c.ret = c.leanType(sig.Results().At(0).Type())
+			c.retErr = true
+			if !mode {
+				c.needRes = true
+				c.fail("error result in PURE mode")
+			}
+		default:
+			c.fail("%d results", sig.Results().Len())
+		}
+		ast.Inspect(f.decl, func(n ast.Node) bool {
+			if id, ok := n.(*ast.Ident); ok && len(id.Name) > 1 && strings.HasSuffix(id.Name, "_") {
+				if c.f.pkg.TypesInfo.Defs[id] != nil {
+					c.fail("identifier %s ends in an underscore (reserved for generated names)", id.Name)
+				}
+			}
+			return true
+		})
+		body = ""
+		if c.err == "" {
+			body = c.stmts(f.decl.Body.List, nil)
+		}
+		if c.err == "" || !c.needRes {
+			break
+		}
+	}
+	r := &fragResult{leanName: leanName, res: c.res, effect: c.effect}
+	if c.err != "" {
+		r.status = "unsupported: " + c.err
+		fmt.Fprintf(fragOut, "-- %s: outside the translated fragment (%s)\n\n", leanName, c.err)
+		fragDone[leanName] = r
+		return r
+	}
+	r.status = "ok"
+	if c.res {
+		r.status = "ok (RES mode)"
+	}
+	for _, a := range c.aux {
+		fragOut.WriteString(a + "\n")
+	}
+	var ps []string
+	for i, p := range c.params {
+		ps = append(ps, "("+p+" : "+c.ptypes[i]+")")
+	}
+	rt := c.ret
+	if c.res {
+		rt = "Res " + c.ret
+	}
+	if c.effect {
+		ps = append([]string{"{σ_ : Type}"}, ps...)
+		ps = append(ps, "(st_ : σ_)")
+	}
+	fmt.Fprintf(fragOut, "def %s %s : %s :=\n%s\n\n", leanName, strings.Join(ps, " "), rt, indent(body, 2))
+	fragDone[leanName] = r
+	return r
+}
+
+// recvTypeName: the name of the named type a method is declared on.
+func recvTypeName(m *types.Func) string {
+	sig, ok := m.Type().(*types.Signature)
+	if !ok || sig.Recv() == nil {
+		return ""
+	}
+	t := sig.Recv().Type()
+	if p, ok := t.(*types.Pointer); ok {
+		t = p.Elem()
+	}
+	if n, ok := t.(*types.Named); ok {
+		return n.Obj().Name()
+	}
+	return ""
+}
+
+// frozen is a type argument together with its Lean translation in the caller's context.
+type frozen struct {
+	types.Type
+	lean string
+}
+
+const fragPrelude = `/-- placeholder that makes an unsupported function's tie theorem fail to build -/
+opaque sorryUnsupported {α : Type} [Inhabited α] : α
+
+/-- how a call can fail: a non-nil ` + "`error`" + ` result, or a Go panic -/
+inductive Exc where
+  | err
+  | panic
+deriving DecidableEq, Repr
+
+/-- result of a function translated in RES mode -/
+abbrev Res (α : Type) := Except Exc α
+
+/-- ` + "`s[i]`" + ` -/
+def goIdx {α : Type} (s : List α) (i : Int) : Res α :=
+  if i < 0 then Except.error Exc.panic
+  else match s[i.toNat]? with
+    | some v => Except.ok v
+    | none => Except.error Exc.panic
+
+/-- ` + "`s[lo:hi]`" + ` (bounds checked against the length) -/
+def goSlice {α : Type} (s : List α) (lo hi : Int) : Res (List α) :=
+  if 0 ≤ lo ∧ lo ≤ hi ∧ hi ≤ (s.length : Int) then Except.ok ((s.take hi.toNat).drop lo.toNat) else Except.error Exc.panic
+
+/-- ` + "`s[i] = v`" + ` -/
+def goSet {α : Type} (s : List α) (i : Int) (v : α) : Res (List α) :=
+  if 0 ≤ i ∧ i < (s.length : Int) then Except.ok (s.set i.toNat v) else Except.error Exc.panic
+
+/-- ` + "`a / b`" + ` on integers -/
+def goDiv (a b : Int) : Res Int := if b = 0 then Except.error Exc.panic else Except.ok (a.tdiv b)
+
+/-- ` + "`a % b`" + ` on integers -/
+def goMod (a b : Int) : Res Int := if b = 0 then Except.error Exc.panic else Except.ok (a.tmod b)
+
+/-- ` + "`make([]T, n, c)`" + ` -/
+def goMake {α : Type} (n c : Int) (z : α) : Res (List α) :=
+  if 0 ≤ n ∧ n ≤ c then Except.ok (List.replicate n.toNat z) else Except.error Exc.panic
+
+/-- ` + "`strings.Repeat(s, n)`" + ` -/
+def goRepeat (s : List UInt8) (n : Int) : Res (List UInt8) :=
+  if n < 0 then Except.error Exc.panic else Except.ok (List.replicate n.toNat s).flatten
+
+/-- ` + "`_, ok := m[k]`" + ` -/
+def mapHas {κ β : Type} [DecidableEq κ] (m : List (κ × β)) (k : κ) : Bool :=
+  match m with
+  | [] => false
+  | e :: rest => if e.1 = k then true else mapHas rest k
+
+/-- ` + "`m[k]`" + ` as a value (z = the zero value of the element type) -/
+def mapGet {κ β : Type} [DecidableEq κ] (m : List (κ × β)) (k : κ) (z : β) : β :=
+  match m with
+  | [] => z
+  | e :: rest => if e.1 = k then e.2 else mapGet rest k z
+
+/-- ` + "`m[k] = v`" + `: overwrite the entry of k, or add one at the end -/
+def mapSet {κ β : Type} [DecidableEq κ] (m : List (κ × β)) (k : κ) (v : β) : List (κ × β) :=
+  match m with
+  | [] => [(k, v)]
+  | e :: rest => if e.1 = k then (k, v) :: rest else e :: mapSet rest k v
+
+`
 
 func translateFrag() (string, map[string]string) {
 	status := map[string]string{}
@@ -733,56 +608,35 @@ func translateFrag() (string, map[string]string) {
 	sb.WriteString("/-! GENERATED by /verif/translator (frag.go) from /repo's current source — do not edit.\n\n")
 	sb.WriteString("Mechanical Go → Lean translation of simple pure helpers (see translator/frag.go for the fragment).\n")
 	sb.WriteString("`Theorems/GenTie.lean` proves each definition equal to the hand-written model. -/\n")
-	sb.WriteString("namespace GoguVerif.Gen.Funcs\n\n")
-	sb.WriteString("/-- placeholder that makes an unsupported function's tie theorem fail to build -/\nopaque sorryUnsupported {α : Type} [Inhabited α] : α\n\n")
-	byName := map[string]*fn{}
+	sb.WriteString("set_option linter.unusedVariables false\nnamespace GoguVerif.Gen.Funcs\n\n")
+	sb.WriteString(fragPrelude)
+	fragByName = map[string]*fn{}
+	fragDone = map[string]*fragResult{}
+	fragBusy = map[string]bool{}
+	fragOut = &sb
 	for _, f := range order {
 		if f.pkg.Name == "gogu" && f.decl.Recv == nil {
-			byName[f.obj.Name()] = f
+			fragByName[f.obj.Name()] = f
+		}
+		if f.pkg.Name == "gogu" && f.decl.Recv != nil {
+			if n := recvTypeName(f.obj); n != "" {
+				fragByName[n+"_"+f.obj.Name()] = f
+			}
 		}
 	}
 	for _, name := range fragFunctions {
-		f := byName[name]
-		if f == nil {
-			status[name] = "missing from the source"
-			fmt.Fprintf(&sb, "-- %s: missing from the source\n\n", name)
-			continue
-		}
-		c := &fragCtx{f: f, name: name, heads: map[string]string{}, loopVar: map[string][2]string{}}
-		sig := f.obj.Type().(*types.Signature)
-		for i := 0; i < sig.Params().Len(); i++ {
-			p := sig.Params().At(i)
-			t := p.Type()
-			if sig.Variadic() && i == sig.Params().Len()-1 {
-				t = p.Type() // already []T
-			}
-			c.params = append(c.params, lv(p.Name()))
-			c.ptypes = append(c.ptypes, c.leanType(t))
-		}
-		if sig.Results().Len() != 1 {
-			c.fail("%d results", sig.Results().Len())
-		} else {
-			c.ret = c.leanType(sig.Results().At(0).Type())
-		}
-		body := ""
-		if c.err == "" {
-			body = c.stmts(f.decl.Body.List, nil)
-		}
-		if c.err != "" {
-			status[name] = "unsupported: " + c.err
-			fmt.Fprintf(&sb, "-- %s: outside the translated fragment (%s)\n\n", name, c.err)
-			continue
-		}
-		status[name] = "ok"
-		for _, a := range c.aux {
-			sb.WriteString(a + "\n")
-		}
-		var ps []string
-		for i, p := range c.params {
-			ps = append(ps, "("+p+" : "+c.ptypes[i]+")")
-		}
-		fmt.Fprintf(&sb, "def %s %s : %s :=\n%s\n\n", name, strings.Join(ps, " "), c.ret, indent(body, 2))
+		r := translateFunc(name, "", nil, nil)
+		status[name] = r.status
 	}
+	// instances and dependencies that were pulled in
+	var extra []string
+	for n, r := range fragDone {
+		if _, listed := status[n]; !listed {
+			extra = append(extra, n)
+			status[n] = r.status + " (dependency)"
+		}
+	}
+	sort.Strings(extra)
 	sb.WriteString("end GoguVerif.Gen.Funcs\n")
 	return sb.String(), status
 }
